@@ -21,7 +21,7 @@ func TestC13(t *testing.T) {
 	mon.Main(t, mon.Check{
 		ID:    "C13",
 		Level: "exploration",
-		Rule:  "real gbn code in virtual time, keepalive on. (D) dead peer: after some acknowledged traffic the transport goes silent (incoming link blackholed, or both) at an instant swept over offsets 0..2*ping after the last activity and over exact multiples of the ping interval; at that instant the application queues k in {0,1,N-1,N,N+5} messages; a small real-time slice repeats the dead-peer case with a slow transport (every write takes 0.8 ping intervals, in half of the cases first with a live peer whose acknowledgements arrive while ticks are pending, so the send loop is hardly ever parked when a keepalive timer fires; it cannot run in a bubble because Close then waits for a write while other goroutines wait on its sync.Once); ping/pong in {(5s,3s),(7s,3s),(1s,1s),(100ms,50ms),(30s,10s),(1s,3s)}, N in {1,3,20,254}, static and adaptive timeouts. Oracle: the endpoint closes itself within ping+pong+10*resendTimeout(at closure)+1s of the silence instant, and its blocked callers return. (H) healthy idle: both ends keepalive (mailbox's 7s/3s vs 5s/3s and others), round-trip time in {0, pong/2, pong-20ms}, 1-24 h of virtual idleness, a third of them with the ACK of a keepalive ping lost now and then (the resent ping is answered by a NACK within the pong timeout); oracle: no endpoint closes and ping packets were seen on the wire. One case in nineteen is a healthy-idle case of the edge family N=1, static 1 s resend, both ends pinging every 1 s with a 3 s pong timeout over a 2.98 s round trip, 24 h (pings always outstanding, ticks coinciding with arrivals). A case whose bubble freezes (a goroutine waits on a mutex, which stops the virtual clock) is repeated on the real clock when its bound is below 100 s and judged there. A third of the cases run over links whose Send/Recv calls take a PRNG-chosen 1 ns .. 200 µs (schedule perturbation around coinciding timer expiries and arrivals). Non-trivial = silence was injected while the connection was open / pings observed; distinct = (kind, ping, pong, N, backlog class, one/two-sided, timeout mode, offset bucket).",
+		Rule:  "real gbn code in virtual time, keepalive on. (D) dead peer: after some acknowledged traffic the transport goes silent (incoming link blackholed, or both) at an instant swept over offsets 0..2*ping after the last activity and over exact multiples of the ping interval; at that instant the application queues k in {0,1,N-1,N,N+5} messages; a small real-time slice repeats the dead-peer case with a slow transport (every write takes 0.8 ping intervals, in half of the cases first with a live peer whose acknowledgements arrive while ticks are pending, so the send loop is hardly ever parked when a keepalive timer fires; it cannot run in a bubble because Close then waits for a write while other goroutines wait on its sync.Once); ping/pong in {(5s,3s),(7s,3s),(1s,1s),(100ms,50ms),(30s,10s),(1s,3s)}, N in {1,3,20,254}, static and adaptive timeouts. Oracle: the endpoint closes itself within ping+pong+10*resendTimeout(at closure)+1s of the silence instant, and its blocked callers return. (B) a few real-time cases in which the peer dies while the endpoint is sending over a transport with backpressure (the relay's mailbox is a pipe: the write that follows blocks), same oracle. (H) healthy idle: both ends keepalive (mailbox's 7s/3s vs 5s/3s and others), round-trip time in {0, pong/2, pong-20ms}, 1-24 h of virtual idleness, a third of them with the ACK of a keepalive ping lost now and then (the resent ping is answered by a NACK within the pong timeout); oracle: no endpoint closes and ping packets were seen on the wire. One case in nineteen is a healthy-idle case of the edge family N=1, static 1 s resend, both ends pinging every 1 s with a 3 s pong timeout over a 2.98 s round trip, 24 h (pings always outstanding, ticks coinciding with arrivals). A case whose bubble freezes (a goroutine waits on a mutex, which stops the virtual clock) is repeated on the real clock when its bound is below 100 s and judged there. A third of the cases run over links whose Send/Recv calls take a PRNG-chosen 1 ns .. 200 µs (schedule perturbation around coinciding timer expiries and arrivals). Non-trivial = silence was injected while the connection was open / pings observed; distinct = (kind, ping, pong, N, backlog class, one/two-sided, timeout mode, offset bucket).",
 		Assumptions: []string{
 			"detection bound uses the connection's own (possibly boosted) resend timeout read through the hook: the send loop may sit in the resend sync wait (3x resend timeout) when the timers fire",
 		},
@@ -166,7 +166,66 @@ func frozenBubble(c *mon.Case, f func(), guard time.Duration) bool {
 	return true
 }
 
+// runC13Backpressure: dead peer behind a transport with backpressure, on the
+// real clock. The hashmail relay's mailbox is a pipe (aperture's stream is two
+// io.Pipes and an unbuffered channel): once its reader is gone, the writer's
+// Send blocks after a message or two. Here the peer dies while the endpoint is
+// sending: everything from the peer is lost and the endpoint's next transport
+// write blocks until its context is cancelled.
+func runC13Backpressure(c *mon.Case) {
+	rng := rand.New(rand.NewSource(c.Seed))
+	k := []pp{{250 * time.Millisecond, 500 * time.Millisecond}, {500 * time.Millisecond, time.Second}}[rng.Intn(2)]
+	n := []uint8{1, 3, 20}[rng.Intn(3)]
+	conf := eng.GBNConf{N: n, PingC: k.ping, PongC: k.pong, Static: true, Resend: time.Second}
+	ctx, cancel := context.WithCancel(context.Background())
+	defer cancel()
+	p := eng.NewPair(conf)
+	ce, se := p.Connect(ctx)
+	if ce != nil || se != nil {
+		c.Shard.Inconc(fmt.Sprintf("handshake failed: %v / %v", ce, se))
+		p.CloseAll()
+		return
+	}
+	go func() {
+		for {
+			if _, err := p.S.Recv(); err != nil {
+				return
+			}
+		}
+	}()
+	go func() {
+		for i := 0; ; i++ {
+			if p.C.Send(eng.MsgBytes('a', i, 200)) != nil {
+				return
+			}
+			time.Sleep(5 * time.Millisecond)
+		}
+	}()
+	time.Sleep(time.Duration(100+rng.Intn(400)) * time.Millisecond)
+	t0 := time.Now()
+	p.S2C.SetBlackhole(true, true)
+	p.C2S.SetBlockSend(true)
+	bound := k.ping + k.pong + 10*time.Second + 5*time.Second
+	rep := map[string]any{"kind": "B", "conf": conf.String(), "bound": bound.String()}
+	select {
+	case <-p.C.VerifDone():
+		c.Shard.Max("max_detection_backpressure_ms", time.Since(t0).Milliseconds())
+	case <-time.After(bound):
+		c.Shard.Violate("dead-peer-undetected|transport-backpressure",
+			fmt.Sprintf("the peer died while the endpoint was sending over a transport with backpressure (its next write blocks, nothing arrives any more): %v later the endpoint is still open (ping %v, pong %v, N=%d); its send loop sits in the transport's send and cannot serve the keepalive timers", bound, k.ping, k.pong, n), rep)
+	}
+	p.C2S.SetBlockSend(false)
+	cancel()
+	go p.CloseAll()
+	c.Shard.Count("backpressure_cases", 1)
+	c.Shard.Eval(fmt.Sprintf("B|%v|%d", k.ping, n))
+}
+
 func runC13(c *mon.Case) {
+	if c.Idx%150 == 37 {
+		runC13Backpressure(c)
+		return
+	}
 	if c.Idx%19 == 7 {
 		runC13HealthyKind(c, true)
 		return
